@@ -6,6 +6,7 @@ import Gotree.Lemmas.C11Pools
 import Gotree.Lemmas.C11Collect
 import Gotree.Lemmas.C11HashMapSpec
 import Gotree.Model.C11Tbe
+import Gotree.Lemmas.C11Tally
 
 namespace Gotree.C11
 
@@ -448,6 +449,23 @@ theorem table_add_and_close :
     (Gotree.Gen.C11.goroutines.filter (fun g => g.counted && !g.addOK)).map (·.line) = [] ∧
     Gotree.Gen.C11.goroutines.flatMap (·.returnsBeforeClose) = [] ∧
     ReadMultiTrees_go0.producerLeaks = [] ∧ TBE_go0.producerLeaks = [] := by decide
+
+/-- table decision (harness/c11/globals.go): below the goroutines of the four pools — through every function of the
+    parsed packages they call, to any depth, interface methods included — no PACKAGE-LEVEL variable of the module is
+    written (assigned, incremented, or the receiver of a method that may write it) without a mutex or an atomic
+    operation.  This is the fact a worker can break without capturing anything (a hasher, cache or counter made
+    package-level in a callee); the only rows of the unchanged tree are the atomic counter of the `verif` yield hook. -/
+theorem table_no_unsync_global_write :
+    (Gotree.Gen.C11.globalWrites.filter (fun gw => gw.2.unsync)).map (fun gw => (gw.1, gw.2.var, gw.2.line)) = [] := by decide
+
+/-- table decision (harness/c11/chans.go): the capacity of every channel made in the scoped functions was read
+    (`a * threads + b`), and the two input channels whose capacity the driver's model runs take from the table are
+    there: the tree channel of `ReadMultiTrees`, the edge channel of `TBE`.  Their VALUES are not pinned: the
+    theorems hold for every capacity, a changed buffer size changes the model run only. -/
+theorem table_channel_capacities :
+    Gotree.Gen.C11.chanCapsUnparsed = [] ∧
+    (Gotree.Gen.C11.chanCaps.any fun c => c.1 == "ReadMultiTrees" && c.2.2.1 == "tree.Trees") = true ∧
+    (Gotree.Gen.C11.chanCaps.any fun c => c.1 == "TBE" && c.2.2.1 == "*tree.Edge") = true := by decide
 
 /-- table decision: every write an exported method of `*hashmap.HashMap` makes through its receiver
     (PutValue, and rehash below it) happens with the write lock held -/
@@ -1002,6 +1020,33 @@ theorem tbe_error_reaches_caller (ref : T) (w : Nat) (hw : 1 ≤ w) (cap : Nat) 
 
 -- the hypothesis of `tbe_error_reaches_caller` is satisfiable: an item carrying an error is erroneous for every reference
 example (ref : T) : ∃ it ∈ [Item.tree ref, Item.err], it.isBad ref = true := ⟨.err, by simp, rfl⟩
+
+/-- TBE's moved-taxa tallies, one bootstrap tree: the accumulators after the fan-out — own cells of every branch
+    (raw support, sumNbClosestBranches, movedperbranch row) and the tallies shared under the mutex
+    (movedspeciestmp, nbranchclose, folded into movedspecies) — are the same under every schedule, worker count
+    and capacity: sums of rationals over the multiset of the workers' messages.  (Over float64 the order of the
+    additions under the mutex may change the last bit: class TbeMovedTaxaFloatOrder.) -/
+theorem tbe_tallies_fanout_schedule_independent (r b : T) (cutoff : Rat) (acc : Gotree.C10.Acc) (w : Nat) (hw : 1 ≤ w) (cap : Nat)
+    (sched : List (Nat × Nat)) :
+    tallyCollect r acc (runToEnd tbePool.shape (tallyItemFn r b cutoff) (fun _ => false) w cap (tallyItems r acc) sched).out =
+    tallyCollect r acc ((tallyItems r acc).map (tallyItemFn r b cutoff)) := by
+  have h := (runToEnd_complete_anycap tbePool (by decide) (tallyItemFn r b cutoff) (fun _ => false) w hw cap (tallyItems r acc)
+    (Or.inl (by decide)) sched).2
+  exact (tallyCollect_perm r acc h.symm (tallyItems_keys_nodup r b cutoff acc)).symm
+
+/-- … and over the whole stream of bootstrap trees, for every family of schedules -/
+theorem tbe_tallies_schedule_independent (ref : T) (cutoff : Rat) (w : Nat) (hw : 1 ≤ w) (cap : Nat) (scheds : Nat → List (Nat × Nat)) :
+    ∀ (boots : List T) (k : Nat) (acc : Gotree.C10.Acc),
+      tallyOuter tbePool.shape ref cutoff w cap scheds boots k acc = tallySeq ref cutoff boots acc := by
+  intro boots
+  induction boots with
+  | nil => intro k acc; rfl
+  | cons b rest ih =>
+    intro k acc
+    simp only [tallyOuter, tallySeq, tbe_tallies_fanout_schedule_independent ref b cutoff acc w hw cap (scheds k)]
+    cases tallyCollect ref acc ((tallyItems ref acc).map (tallyItemFn ref b cutoff)) with
+    | none => rfl
+    | some acc' => exact ih (k + 1) acc'
 
 /-- the progress counter (one increment per tree whose iteration completes = one message of the model): on a
     stream without erroneous tree every schedule of the extracted FBP pool completes every tree exactly once -/
